@@ -443,6 +443,64 @@ func Render(e *Expr, st Style) (string, error) {
 	return joinTokens(r.toks, st), nil
 }
 
+// refsVar: does the expression refer to a variable anywhere (spec: RefsVar)
+func refsVar(e *Expr) bool {
+	if e == nil {
+		return false
+	}
+	if e.Op == "var" {
+		return true
+	}
+	steps := func(ss []Step) bool {
+		for i := range ss {
+			if ss[i].Fn != nil && refsVar(ss[i].Fn) {
+				return true
+			}
+			for j := range ss[i].Preds {
+				if refsVar(&ss[i].Preds[j]) {
+					return true
+				}
+			}
+		}
+		return false
+	}
+	if steps(e.Steps) || refsVar(e.Prim) || refsVar(e.L) || refsVar(e.R) || refsVar(e.A) {
+		return true
+	}
+	for i := range e.Preds {
+		if refsVar(&e.Preds[i]) {
+			return true
+		}
+	}
+	for i := range e.Args {
+		if refsVar(&e.Args[i]) {
+			return true
+		}
+	}
+	return false
+}
+
+// mayHandOnOrder (spec: MayHandOnOrder): the expression mentions a variable and the environment binds a node-set
+// that is not in ascending document order
+func mayHandOnOrder(e *Expr, env *Env) bool {
+	if env == nil || !refsVar(e) {
+		return false
+	}
+	for _, v := range env.Vars {
+		if v.Val.T != "ns" {
+			continue
+		}
+		var ids []int
+		json.Unmarshal(v.Val.V, &ids)
+		for i := 1; i < len(ids); i++ {
+			if ids[i] < ids[i-1] {
+				return true
+			}
+		}
+	}
+	return false
+}
+
 func usesReverseAxis(e *Expr) bool {
 	if e == nil {
 		return false
